@@ -264,6 +264,8 @@ var simKinds = []struct {
 	{model.TargetType_ENEMIES, model.TargetType_ENEMIES, model.TargetType_ENEMIES, 1, 1, 100, 105, 900, 0},  // two ultimates (info.MultiUlt)
 	{model.TargetType_ENEMIES, model.TargetType_ENEMIES, model.TargetType_ENEMIES, 1, 1, 100, 100, 1000, 1}, // a custom skill check on top of the skill-point cost
 	{model.TargetType_ENEMIES, model.TargetType_ENEMIES, model.TargetType_ENEMIES, 1, 1, 100, 100, 1000, 2}, // a custom skill check that never allows the skill
+	{model.TargetType_ENEMIES, model.TargetType_SELF, model.TargetType_ENEMIES, 1, 1, 100, 100, 1000, 0},    // skill on itself, ultimate on the enemies
+	{model.TargetType_ENEMIES, model.TargetType_ENEMIES, model.TargetType_ALLIES, 1, 1, 100, 100, 1000, 0},  // skill on the enemies, ultimate on the team
 }
 
 // kind 4 has two ultimates and no single one
